@@ -21,7 +21,7 @@ Op(o, c, what, r, svc) == [op |-> o, c |-> c, what |-> what, r |-> r, svc |-> sv
 DQ == {"D_queue_full_drop"}
 W0 == [ci |-> [c \in Conns |-> InitConn({}, QCapG)],
        cd |-> [c \in Conns |-> InitConn(DQ, QCapG)],
-       sent |-> [c \in Conns |-> 0], down |-> FALSE, credit |-> 0, tick |-> 0,
+       sent |-> [c \in Conns |-> 0], down |-> FALSE, credit |-> 0, tick |-> 0, aerr |-> 0,
        dg |-> InitDg]
 
 \* apply one stimulus to one connection record
@@ -45,6 +45,7 @@ ApplyOpen(f, op) ==
 
 ApplyConns(f, op) ==
   CASE op.op = "open" -> ApplyOpen(f, op)
+    [] op.op = "accepterr" -> f          \* a failed accept() changes nothing
     [] op.op = "halftick" -> [c \in Conns |-> Settle(EnvHalfTick(f[c]))]
     [] op.op = "shutdown" -> [c \in Conns |-> Settle(EnvShutdown(f[c]))]
     [] OTHER              -> [f EXCEPT ![op.c] = Settle(Stim(f[op.c], op))]
@@ -62,7 +63,8 @@ Apply(x, op) ==
                  !.sent = IF op.op = "send" THEN [@ EXCEPT ![op.c] = @ + 1] ELSE @,
                  !.down = @ \/ op.op = "shutdown",
                  !.credit = IF op.op = "credit" THEN @ + 1 ELSE @,
-                 !.tick = IF op.op = "halftick" THEN @ + 1 ELSE @]
+                 !.tick = IF op.op = "halftick" THEN @ + 1 ELSE @,
+                 !.aerr = IF op.op = "accepterr" THEN @ + 1 ELSE @]
 
 \* stimuli worth trying in world x (guards on the machine as the code is)
 ConnOps(x) ==
@@ -81,6 +83,7 @@ ConnOps(x) ==
               : c \in Conns},
        {Op("credit", c, "", 0, "") : c \in {d \in Conns : S(d).st = "open" /\ x.credit < MaxCredit}},
        {Op("abort", c, "", 0, "") : c \in {d \in Conns : S(d).st = "open" /\ ~S(d).ab}},
+       IF ~x.down /\ x.aerr < 2 THEN {Op("accepterr", 0, "", 0, "")} ELSE {},
        IF x.tick < MaxTick /\ \E c \in Conns : S(c).st = "open"
          THEN {Op("halftick", 0, "", 0, "")} ELSE {},
        IF ~x.down /\ \E c \in Conns : S(c).st = "open"
@@ -138,6 +141,7 @@ Rl(c, r) == Op("release", c, "", r, "")
 Cr(c) == Op("credit", c, "", 0, "")
 Ab(c) == Op("abort", c, "", 0, "")
 HT == Op("halftick", 0, "", 0, "")
+AE == Op("accepterr", 0, "", 0, "")     \* poll_accept returns an error once
 SD == Op("shutdown", 0, "", 0, "")
 
 Directed ==
@@ -177,6 +181,9 @@ Directed ==
      \* the next client is served
      <<OF(1), OF(2), OF(3), O(4), Cr(4), Q(4,1,"single"), Rl(4,1)>>,
      <<O(1), OF(2), OF(3), O(4), Cr(4), Cr(1), Q(4,1,"single"), Rl(4,1), Q(1,1,"single"), Rl(1,1)>>,
+     \* a failing accept() does not end the accept loop
+     <<AE, O(1), Cr(1), Q(1,1,"single"), Rl(1,1)>>,
+     <<O(1), AE, AE, O(2), Cr(2), Cr(1), Q(2,1,"single"), Rl(2,1), Q(1,1,"single"), Rl(1,1), AE, Ab(1), O(3), Cr(3), Rp(3,1)>>,
      \* at the limit a connection is refused; when one ends there is room again
      <<O(1), O(2), O(3), Ab(1), O(4), Cr(4), Q(4,1,"single"), Rl(4,1), Cr(2), Q(2,1,"single"), Rl(2,1)>>,
      \* open / close cycles of every kind do not use up the limit
